@@ -780,13 +780,13 @@ class DistGeometric(DistDiscrete):
         ------
         TypeError: when stream is not implementing StreamInterface
         TypeError: when p is not a float
-        ValueError: when p < 0 or p > 1
+        ValueError: when p <= 0 or p >= 1
         """
         super().__init__(stream)
         if not isinstance(p, float):
             raise TypeError(f"parameter p {p} is not a float")
-        if not 0 <= p <= 1:
-            raise ValueError(f"parameter p {p} not between 0 and 1")
+        if not 0 < p < 1:
+            raise ValueError(f"parameter p {p} not between 0 and 1 (exclusive)")
         self._p = p
         self._lnp = math.log(1.0 - self._p)
         
@@ -849,15 +849,15 @@ class DistNegBinomial(DistDiscrete):
         TypeError: when stream is not implementing StreamInterface
         TypeError: when p is not a float
         TypeError: when s is not an int
-        ValueError: when p < 0 or p > 1 or s <= 0
+        ValueError: when p <= 0 or p >= 1 or s <= 0
         """
         super().__init__(stream)
         if not isinstance(p, float):
             raise TypeError(f"parameter p {p} is not a float")
         if not isinstance(s, int):
             raise TypeError(f"parameter s {s} is not an int")
-        if not 0 <= p <= 1:
-            raise ValueError(f"parameter p {p} not between 0 and 1")
+        if not 0 < p < 1:
+            raise ValueError(f"parameter p {p} not between 0 and 1 (exclusive)")
         if s <= 0:
             raise ValueError(f"parameter s {s} <= 0")
         self._p = p
